@@ -19,8 +19,8 @@ RELEVANT = {
     "C08": STRUCT | {"verdict", "ncl", "seen", "value", "ident", "count", "stray", "drops", "frees", "panicked", "drain"},
     "C09": STRUCT | {"verdict", "out", "drops", "frees", "count", "ncl", "seen", "drain", "stray", "baddrop", "panicked"},
     "C10": STRUCT | {"count", "value", "ident", "thin", "addr", "heap", "panicked", "drops", "frees", "drain", "baddrop", "poison", "stray", "contents", "overrun"},
-    "C11": STRUCT | {"heap", "addr", "count", "value", "width", "bits"},
-    "C12": STRUCT | {"union", "count", "layout", "drops", "frees", "baddrop", "drain", "value", "ident", "poison", "width"},
+    "C11": STRUCT | {"heap", "addr", "count", "value", "width", "bits", "verdict"},
+    "C12": STRUCT | {"union", "count", "layout", "drops", "frees", "baddrop", "drain", "value", "ident", "poison", "width", "verdict"},
     "C15": STRUCT | {"baddrop", "drops", "frees", "drain", "poison", "count", "value", "ident", "panicked", "stray", "contents", "verdict", "overrun"},
     "C16": {"abort", "count"},
     "C17": {"serde", "count", "stray", "drain", "frees", "drops"},
